@@ -2,9 +2,9 @@
 SPECIFICATION Spec
 CONSTANTS
   MaxDepth = 3
-  DsNames = {"R180", "M360", "E360", "ZIG", "IRR", "RPT", "F2D", "BADS"}
-  StartForms = {"fresh", "imported", "saved", "sparse"}
-  EmitMode = 0
+  DsNames = {"R180", "F2D", "E360"}
+  StartForms = {"imported", "saved", "cached"}
+  EmitMode = 3
   BUG_SINOHIST = FALSE
   BUG_LOAD360 = FALSE
   BUG_YSTEP = FALSE
@@ -18,17 +18,11 @@ INVARIANT Partition
 INVARIANT HistTotal
 INVARIANT HistMatchesEdges
 INVARIANT CentresAreMotors
-INVARIANT RoundTripLoads
-INVARIANT RoundTripPersist
-INVARIANT RoundTripDerived
-INVARIANT RoundTripOfb
-INVARIANT RoundTripYstep
-INVARIANT LoadIdempotent
 INVARIANT SaveTotal
 INVARIANT SaveTarget
 INVARIANT BadScanBest
 INVARIANT CompareSound
-INVARIANT CompareRoundTrip
+INVARIANT RoundTripAll
 INVARIANT CacheNoMix
 PROPERTY PathsKept
 PROPERTY MonitorResets
